@@ -371,7 +371,7 @@ func c06corruptCase(c *vf.Ctx, i int) {
 
 var c06foreign = []string{"0", "O", "I", "l", " ", "\n", "\t", "\x00", "+", "/", "-", "_", "=", "\x7f", "\x80", "\xff", "é", "１"}
 
-const c06families = 9
+const c06families = 10
 
 func c06forgedCase(c *vf.Ctx, i int) {
 	fam, v := i%c06families, i/c06families
@@ -421,6 +421,17 @@ func c06forgedCase(c *vf.Ctx, i int) {
 		ver := allNets[r.Intn(len(allNets))].P.PrivateKeyID
 		c.Inc("forged_scalar_out_of_range")
 		c06check(c, fmt.Sprintf("scalar=%x", d), ref.B58Encode(c06sum(c06body(ver, c06pad32(d), v%2 == 0))))
+	case 9: // a complete valid WIF payload as the TAIL of a longer byte string (junk, zero bytes, valid)
+		full := c06validRaw(r, v)
+		for _, zeros := range []int{0, 1, 2, 5} {
+			j := r.Bytes(1 + r.Intn(6))
+			if j[0] == 0 {
+				j[0] = 1
+			}
+			long := append(append(append([]byte{}, j...), make([]byte, zeros)...), full...)
+			c06check(c, fmt.Sprintf("valid-tail-after-%d-junk-and-%d-zero-bytes", len(j), zeros), ref.B58Encode(long))
+		}
+		c.Count("forged_valid_tail_of_longer_string", 4)
 	case 4: // 1..4 extra leading '1' characters
 		s := ref.B58Encode(c06validRaw(r, v))
 		for n := 1; n <= 4; n++ {
@@ -639,7 +650,7 @@ func init() {
 		Streams: []*vf.Stream{
 			{Name: "roundtrip", N: func(t vf.Tier) int { return 66 + t.Sz(20000, 300000) }, Run: c06roundtripCase},
 			{Name: "corrupt", N: func(t vf.Tier) int { return t.Sz(6000, 60000) }, Run: c06corruptCase},
-			{Name: "forged", N: func(t vf.Tier) int { return t.Sz(9*800, 9*8000) }, Run: c06forgedCase},
+			{Name: "forged", N: func(t vf.Tier) int { return t.Sz(10*800, 10*8000) }, Run: c06forgedCase},
 			{Name: "zero-digit-runs", N: func(t vf.Tier) int { return t.Sz(1200, 24000) }, Run: c06zeroRunCase},
 			{Name: "checksum-collisions", Workers: 1, Init: c06collInit, N: func(t vf.Tier) int { return t.Sz(60, 600) }, Run: c06collCase},
 		},
